@@ -1,6 +1,6 @@
 (* C20 - the netstring oracles accept every trace the model can produce (so they fire only where the
    implementation leaves what the theorems establish). *)
-From Icv Require Import Base.Tac Codec.NsModel Codec.NsDecimal Codec.NsProofs Codec.NsStreamProofs Codec.JsModel Codec.CodecOracle.
+From Icv Require Import Base.Tac Codec.NsModel Codec.NsDecimal Codec.NsProofs Codec.NsEofProofs Codec.NsStreamProofs Codec.JsModel Codec.CodecOracle.
 Local Open Scope Z_scope.
 
 Lemma cd_bytes_eqb_refl a : cd_bytes_eqb a a = true.
@@ -83,6 +83,20 @@ Proof.
   rewrite A, cd_frames_eqb_refl, B. cbn [andb].
   destruct (rev (ns_model_feeds max ns_ctx_init chunks)) as [|[ch o] t]; [reflexivity|].
   rewrite D, Hbuf. reflexivity.
+Qed.
+
+(* the end-of-stream oracle accepts what the model's caller loop computes, for EVERY chunking of the input *)
+Theorem ns_oracle_eof_accepts_model max fills :
+  let '(items, e, size) := ns_read_all max fills in
+  ns_oracle_eof max (concat fills) items (ns_end_code e) size 1 = true.
+Proof.
+  pose proof (ns_eof_chunking_independent max fills [concat fills]) as H.
+  cbn [concat] in H. rewrite app_nil_r in H. destruct (H eq_refl) as [H1 H2]. clear H.
+  unfold ns_oracle_eof.
+  destruct (ns_read_all max fills) as [[i e] sz]. destruct (ns_read_all max [concat fills]) as [[i' e'] sz'].
+  cbn [fst snd] in *. inv H1. rewrite cd_frames_eqb_refl, Z.eqb_refl. cbn [andb].
+  destruct e'; cbn [ns_end_code Z.eqb]; try reflexivity.
+  specialize (H2 eq_refl). inv H2. rewrite Z.eqb_refl. reflexivity.
 Qed.
 
 (* the stream oracle accepts what the model computes *)
